@@ -373,7 +373,9 @@ def main(argv=None):
         'violations': len(violations),
     }
     os.makedirs(os.path.join(ROOT, 'evidence'), exist_ok=True)
-    with open(os.path.join(ROOT, 'evidence', f'{pid}.json'), 'w') as f:
+    os.makedirs(os.path.join(ROOT, '.tmp'), exist_ok=True)
+    # a partial run (--only) must never replace the record of the full check
+    with open(os.path.join(ROOT, '.tmp' if a.only else 'evidence', f'{pid}.json'), 'w') as f:
         json.dump(ev, f, indent=1, default=str)
     print(f'{pid} tier={tier}: functions={len(functions)} clauses={n_clause} discharged={n_discharged} vcs={n_vc} bounded_evals={be} violations={len(violations)} undecided={len(undecided)} wall={ev["wall_s"]}s')
     if violations:
